@@ -11,11 +11,13 @@ import (
 type Ev map[string]interface{}
 
 type Recorder struct {
-	mu   sync.Mutex
-	w    *bufio.Writer
-	seq  int
-	mem  []Ev
-	keep bool
+	parent *Recorder // a child forwards to its parent until it is switched off
+	off    bool
+	mu     sync.Mutex
+	w      *bufio.Writer
+	seq    int
+	mem    []Ev
+	keep   bool
 }
 
 func New(w io.Writer) *Recorder { return &Recorder{w: bufio.NewWriterSize(w, 1<<20)} }
@@ -23,7 +25,31 @@ func New(w io.Writer) *Recorder { return &Recorder{w: bufio.NewWriterSize(w, 1<<
 // NewMem keeps events in memory (Events()) instead of writing them.
 func NewMem() *Recorder { return &Recorder{keep: true} }
 
+// Child returns a recorder that forwards to r until Off is called: one per scenario, so that
+// goroutines of a finished scenario cannot write into the trace of the next one.
+func (r *Recorder) Child() *Recorder { return &Recorder{parent: r} }
+
+// Off makes a child recorder drop everything from now on.
+func (r *Recorder) Off() {
+	p := r.parent
+	if p == nil {
+		return
+	}
+	p.mu.Lock()
+	r.off = true
+	p.mu.Unlock()
+}
+
 func (r *Recorder) Emit(e Ev) {
+	if r.parent != nil {
+		r.parent.Do(func() Ev {
+			if r.off {
+				return nil
+			}
+			return e
+		})
+		return
+	}
 	r.mu.Lock()
 	defer r.mu.Unlock()
 	r.seq++
@@ -41,6 +67,15 @@ func (r *Recorder) Emit(e Ev) {
 
 // Do runs f under the recorder lock and emits its event: for linearization points.
 func (r *Recorder) Do(f func() Ev) {
+	if r.parent != nil {
+		r.parent.Do(func() Ev {
+			if r.off {
+				return nil
+			}
+			return f()
+		})
+		return
+	}
 	r.mu.Lock()
 	defer r.mu.Unlock()
 	e := f()
